@@ -30,7 +30,7 @@ def strat_linear(tier):
     nmax = 16 if tier == "quick" else 30
     num = st.one_of(st.sampled_from(_all_nums()), st.builds(lambda k: dict(name="extrapolk", k=k), gen.f(-1, 1)))
     coef = st.one_of(gen.sfloat(-2, 2), st.just(0.0), st.just(1.0))
-    mesh = st.one_of(gen.mesh_faces(3, nmax), gen.mesh_morph(3, nmax), gen.mesh_refined(3, nmax), gen.mesh_uniform(3, nmax))
+    mesh = st.one_of(gen.mesh_faces(3, nmax), gen.mesh_morph(3, nmax), gen.mesh_refined(3, nmax), gen.mesh_uniform(3, nmax), gen.mesh_faces(3, nmax), gen.mesh_morph(3, nmax), gen.mesh_big())
     # length unit: the same mesh from nanometres to tens of kilometres (absolute tolerances on coordinates have no place in a reconstruction)
     unit = st.one_of(st.just(1.0), st.just(1.0), st.builds(lambda e: float(10.0 ** e), st.integers(-10, 4)))
     return st.builds(lambda m, nm, model, a, b, per, u: dict(mesh=cases.scale_mesh(m, u), num=nm, model=model, a=a, b=b, periodic=per, unit=u),
@@ -146,7 +146,7 @@ def strat_stencil(tier):
     num = st.one_of(st.sampled_from([x[0] for x in _stencil_nums()]), st.builds(lambda k: dict(name="extrapolk", k=k), gen.f(-1, 1)))
     unit = st.one_of(st.just(1.0), st.just(1.0), st.builds(lambda e: float(10.0 ** e), st.integers(-10, 4)))
     return st.builds(lambda n, a, nm, L, x0, d, u: dict(n=n, a=a, num=nm, length=L * u, x0=x0 * u, data=d),
-                     st.integers(2, nmax), gen.model_convection().map(lambda m: m["a"]), num, gen.logf(-2, 2), gen.f(-3, 3),
+                     st.one_of(st.integers(2, nmax), st.integers(2, nmax), st.integers(2, nmax), st.sampled_from([129, 300, 1025])), gen.model_convection().map(lambda m: m["a"]), num, gen.logf(-2, 2), gen.f(-3, 3),
                      st.lists(gen.sfloat(-3, 2), min_size=1, max_size=11), unit)
 
 
